@@ -91,6 +91,11 @@ def run_one(check, scn, want_events=False):
         res["steps"] = sim.loop.steps
         res["decisions"] = dict(sim.decider.record)
         res["nontrivial"] = bool(res["faults"]) or bool(getattr(sim, "nontrivial", False))
+        res["scn_patch"] = getattr(sim, "scenario_patch", None)
+        if getattr(sim, "sim_time_total", None) is not None:
+            res["sim_time"] = sim.sim_time_total
+        if getattr(sim, "datagrams_total", None) is not None:
+            res["datagrams"] = sim.datagrams_total
         sig = getattr(sim, "signature", None)
         if sig is None:
             h = hashlib.blake2b(digest_size=8)
@@ -121,6 +126,8 @@ def replayable(scn, res):
     out = dict(scn)
     out["mode"] = "replay"
     out["decisions"] = res["decisions"]
+    # a check that enumerates fault points inside one run may pin the failing point(s) for the replay file
+    out.update(res.get("scn_patch") or {})
     return out
 
 
